@@ -313,6 +313,7 @@ pub fn stream(out: &mut Out, seed: u64, thorough: bool) {
             emit_state_case(out, &c);
         }
     }
+    crate::diag::stream_part(out, &mut rng, thorough);
     let nf = if thorough { 1500 } else { 100 };
     for i in 0..nf {
         let mut c = random_state_case::<f64>(&mut rng, false, i);
